@@ -448,3 +448,45 @@ func verifLemma_C08_advance_in_group(a, b, c, k uint64) {
 		verifrt.Assert(it.FeatureID() == vC08ID(b6.FeatureTypePath, want), "advance-lands-on-first-not-less")
 	}
 }
+
+// Advance across two group boundaries from a fresh iterator, to the first ID of
+// the target group (the namespace cursor has to catch up by more than one group).
+func verifLemma_C08_advance_across_groups(a, b, c, k uint64) {
+	verifrt.Assume(a < 128 && b < 128 && c < 128 && k <= c)
+	nt := vC08Table()
+	var pl PostingList
+	e := NewPostingListEncoder(&pl)
+	e.Append(FeatureID{Type: b6.FeatureTypePoint, Namespace: 1, Value: a})
+	e.Append(FeatureID{Type: b6.FeatureTypePath, Namespace: 1, Value: b})
+	e.Append(FeatureID{Type: b6.FeatureTypeArea, Namespace: 1, Value: c})
+	it := &Iterator{header: pl.Header, ids: pl.IDs, nt: nt}
+	verifrt.Assert(it.Advance(vC08ID(b6.FeatureTypeArea, k)), "advance-finds-target-group")
+	verifrt.Assert(it.FeatureID() == vC08ID(b6.FeatureTypeArea, c), "advance-lands-on-first-id-of-target-group")
+	verifrt.Assert(!it.Next(), "end")
+}
+
+// Any 64-bit first value, including those needing a ten-byte varint, followed by
+// an ID a small gap away (quick tier); any two values (thorough tier).
+func verifLemma_C08_extreme_first_value(a, d uint64) {
+	verifrt.Assume(d >= 1 && d < 128 && a+d > a)
+	verifHelper_C08_two(a, a+d)
+}
+
+func verifLemma_C08_extreme_values(a, b uint64) {
+	verifrt.Assume(a < b)
+	verifHelper_C08_two(a, b)
+}
+
+func verifHelper_C08_two(a, b uint64) {
+	nt := vC08Table()
+	var pl PostingList
+	e := NewPostingListEncoder(&pl)
+	e.Append(FeatureID{Type: b6.FeatureTypePath, Namespace: 1, Value: a})
+	e.Append(FeatureID{Type: b6.FeatureTypePath, Namespace: 1, Value: b})
+	it := &Iterator{header: pl.Header, ids: pl.IDs, nt: nt}
+	verifrt.Assert(it.Next(), "first")
+	verifrt.Assert(it.FeatureID() == vC08ID(b6.FeatureTypePath, a), "first-id")
+	verifrt.Assert(it.Next(), "second")
+	verifrt.Assert(it.FeatureID() == vC08ID(b6.FeatureTypePath, b), "second-id")
+	verifrt.Assert(!it.Next(), "end")
+}
